@@ -12,4 +12,7 @@ void main()
   d = name[X];
   if (c == 'ß' || d == accents[Y]) msg = "égal";
   c = d;
+  c = 'é' + 'è'; d = '€' - 'ß';
+  X = 'ü'; Y = 'ö'; c = '日';
+  c = d;
 }
